@@ -314,4 +314,33 @@ theorem angleMod_mod_2pi (r : ℝ) : ∃ k : ℤ, angleModScalar r = r - 2 * Rea
     rfl
   · exact ⟨0, by rw [Int.cast_zero, mul_zero, sub_zero]⟩
 
+theorem pymod_range (r m : ℝ) (hm : 0 < m) : 0 ≤ pymod r m ∧ pymod r m < m := by
+  simp only [pymod]
+  have h1 := Int.floor_le (r / m)
+  have h2 := Int.lt_floor_add_one (r / m)
+  have e : r = m * (r / m) := by field_simp
+  constructor
+  · have := mul_le_mul_of_nonneg_left h1 hm.le
+    change 0 ≤ r - m * (⌊r / m⌋ : ℝ)
+    linarith
+  · have := mul_lt_mul_of_pos_left h2 hm
+    change r - m * (⌊r / m⌋ : ℝ) < m
+    nlinarith
+
+/-- **angle wrapping lands in [−2π, 2π]** and wrapping twice is wrapping once -/
+theorem angleMod_range (r : ℝ) : |angleModScalar r| ≤ 2 * Real.pi := by
+  unfold angleModScalar
+  simp only [sabs_real', pi_real]
+  split_ifs with h
+  · obtain ⟨h0, h1⟩ := pymod_range r (2 * Real.pi) (by positivity)
+    rw [abs_of_nonneg h0]; exact h1.le
+  · exact not_lt.mp h
+
+theorem angleMod_idem (r : ℝ) : angleModScalar (angleModScalar r) = angleModScalar r := by
+  have h := angleMod_range r
+  generalize angleModScalar r = s at h
+  unfold angleModScalar
+  simp only [sabs_real', pi_real]
+  rw [if_neg (not_lt.mpr h)]
+
 end BR.C18
